@@ -4,10 +4,15 @@ import json, os
 V = os.path.dirname(os.path.dirname(os.path.abspath(__file__)))
 
 TECH = "bounded symbolic execution of the real go/ssa code (own forking interpreter, gosym) with z3 deciding every path condition and assertion; counterexamples replayed natively"
-NOTE = ("Trusted: go/ssa translation (x/tools v0.29.0), the engine's SSA semantics and intrinsics listed in the evidence, z3 4.8.12. "
+NOTE = ("Trusted: go/ssa translation (x/tools v0.29.0), the engine's SSA semantics and intrinsics listed in the evidence, z3 5.1.0 (z3-new). "
         "Claim is bounded: every input inside the per-harness bounds recorded in the evidence; nothing outside them. ")
 
 claimed = {
+ "C17": dict(text="Bounded model checking of the inductive step of the per-address balance index (client/wallet TxNotifyAdd / TxNotifyDel, NewUTXO / all_del_utxos): from every index state in which one address holds 0..3 outputs "
+                  "(list or map representation, arbitrary values at or above an arbitrary minimum) one UTXO notification - a two-output transaction with arbitrary scripts and values, or a removal with an arbitrary spent mask, "
+                  "also of never-indexed outputs - leaves each address record equal to the projection of the changed set (members, count, total, no record for an empty address).",
+             ref="6/C17", note=NOTE + "One inductive step from bounded pre-states built to satisfy the representation invariant; the address key (SipHash of the script payload) is computed for concrete addresses. "
+                  "Outside: that the UTXO database emits exactly these notifications on connect / disconnect (lib/utxo commit, undo), building the index from a populated set, the GetAllUnspent listing, more than 3 outputs per address, SipHash collisions between addresses. "),
  "C03": dict(text="Bounded model checking of the scalar range gate of ECDSA verification (acceptance implies r, s in [1, n-1]; DER signatures with R and S of 1..33 bytes; the curve computation replaced by a stub with arbitrary verdict and x coordinate) "
                   "and of signature serialisation (Signature.Bytes is strict minimal DER and parses back for every r, s in [1, 2^256)); public-key parsing for every length and prefix (accepted implies coordinates below p, on the curve, announced parity; valid uncompressed keys are accepted), "
                   "x-only keys, the BIP341 tweak check and the BIP340 gates (key, r < p, s < n, finite even-y nonce point), with field products / square root as uninterpreted functions and the double multiplication as an arbitrary point.",
@@ -60,7 +65,6 @@ na = {
  "C11": "quantifies over thread interleavings; the engine executes one sequential schedule (DESIGN.md 6/C11)",
  "C12": "invariant over histories of five mutually referencing global pointer maps; needs an unbounded symbolic heap (DESIGN.md 6/C12)",
  "C16": "real-file I/O with a background writer; snappy resolves to assembly on amd64 (no SSA) (DESIGN.md 6/C16)",
- "C17": "maps of maps driven by callbacks from parallel UTXO workers over block histories (DESIGN.md 6/C17)",
  "C19": "file operations and crash points of the embedded key-value store (DESIGN.md 6/C19)",
  "C20": "the allocator hands out uintptr addresses inside mmap'ed pages and casts them to typed pointers; deciding it needs a raw-memory model (byte-addressed pages aliasing typed objects) that this go/ssa encoder does not have, and the routing arithmetic alone is not the property (DESIGN.md 0.3, 6/C20)",
 }
